@@ -11,13 +11,22 @@
 
   Tie to /repo: the correspondence run drives the real eventLoop + handlers +
   executable.NewTask with real child processes on the same schedules; the
-  constants, the teardown table and four shape facts of the code are
-  re-extracted on every run (`Gen.ExecTask`) and identified with the model below.
+  constants, the teardown table and the shape facts of the code are re-extracted
+  on every run (`Gen.ExecTask`) and identified with the model below.
 
-  The code (and so the faithful model) violates the property in nine request
-  states; for each the full-strength statement is kept as `def …_full : Prop`,
-  refuted on a witness schedule (`C17_finding_*`), and proved under the
-  hypothesis that excludes exactly that state (`…_partial`).
+  Two configurations of the model: `codeCfg` = the code as it is, `legacyCfg` = the
+  code before five `fix:` commits (ensureBasicTaskKilled nil tests + non-blocking
+  push, handleLaunchEvent nil task, Launch goroutine nil Process, KILL of an inactive
+  task ignored, Kill stops the TASK_RUNNING timer). Every switch of `codeCfg` is
+  identified with a fact read off the source (`C17_repairs_are_code`): reverting a
+  repair breaks that theorem and the correspondence.
+
+  The statements the repairs made true are proved for `codeCfg` at full strength
+  (`…_code`) and refuted for `legacyCfg` on the witness schedules of the six repaired
+  findings (`C17_finding_*`). Three findings are still open (`kill_unready_ctl_panics`,
+  `basic_kill_spares_child`, `ctl_kill_spares_helpers`): their full-strength
+  statements stay `def …_full`, refuted for `codeCfg`, proved under the hypothesis
+  that excludes exactly that request state (`…_partial`, `…_code`).
 -/
 import ControlModel.Gen.ExecTask
 import ControlModel.Proofs.ExecTask
@@ -39,16 +48,29 @@ theorem C17_kill_walk_reaches_done :
 theorem C17_pending_cap_is_code :
     (pendingCap : Int) = Gen.ExecTask.pendingCapBasic ∧ (pendingCap : Int) = Gen.ExecTask.pendingCapCtl := by decide
 
-/-- TASK_RUNNING of a basic/hook task is sent by a timer strictly after Launch returned (the `tick` step). -/
-theorem C17_running_timer_is_code : 0 < Gen.ExecTask.runningDelayMs := by decide
+/-- TASK_RUNNING of a basic/hook task is sent by a timer after Launch returned (the `tick` step); its delay is
+    at least the 200 ms the harness uses to recognise a timer that was due while a KILL was carried out. -/
+theorem C17_running_timer_is_code : 200 ≤ Gen.ExecTask.runningDelayMs := by decide
 
-/-- The four shape facts behind the model's crash / survivor steps, read off the source:
-    ensureBasicTaskKilled uses taskCmd.ProcessState without a nil test, ControllableTask.Kill uses t.rpc
-    without a nil test, basicTaskBase.Kill signals nothing, ControllableTask.Launch uses taskCmd.Process
-    without a nil test. A repair flips one of these and this theorem (and the correspondence) must be redone. -/
+/-- The model of the code as it is has exactly the repairs the source has: each switch of `codeCfg` equals
+    what go/ast reads off /repo — ensureBasicTaskKilled tests taskCmd.ProcessState and taskCmd.Process for nil
+    and sends on pendingFinalTaskStateCh only as a select case next to a default; handleLaunchEvent returns when
+    NewTask gave nil, before calling Launch; ControllableTask.Launch tests taskCmd.Process for nil;
+    handleKillEvent returns nil when the task is not in activeTasks; doLaunch keeps the TASK_RUNNING timer in a
+    field that basicTaskBase.Kill stops. Reverting one of the repairs flips a fact and breaks this theorem. -/
+theorem C17_repairs_are_code :
+    codeCfg = { stopNilSafe := Gen.ExecTask.stopChecksProcessStateNil && Gen.ExecTask.stopChecksProcessNil &&
+                  Gen.ExecTask.stopPushNonBlocking,
+                launchNilSafe := Gen.ExecTask.launchReturnsOnNilTask,
+                startFailSafe := Gen.ExecTask.launchChecksProcessNil,
+                killInactiveIgnored := Gen.ExecTask.killInactiveReturnsNil,
+                killStopsTimer := Gen.ExecTask.basicKillStopsTimer } := by decide
+
+/-- The two shape facts behind the model's remaining crash / survivor steps (open findings), read off the
+    source: ControllableTask.Kill uses t.rpc without a nil test, basicTaskBase.Kill signals nothing.
+    A repair flips one of these and this theorem (and the correspondence) must be redone. -/
 theorem C17_defects_are_code :
-    Gen.ExecTask.stopChecksProcessStateNil = false ∧ Gen.ExecTask.killChecksRpcNil = false ∧
-    Gen.ExecTask.basicKillSignals = false ∧ Gen.ExecTask.launchChecksProcessNil = false := by decide
+    Gen.ExecTask.killChecksRpcNil = false ∧ Gen.ExecTask.basicKillSignals = false := by decide
 
 /-- Escalation after DONE, for every device behaviour: the signals sent are a prefix of TERM, INT, KILL,
     the child is gone afterwards, and with the code's timeouts it takes at most DONE+TERM+INT = 6 s. -/
@@ -59,186 +81,295 @@ theorem C17_escalation_bounded (b : Beh) :
 
 /-! ## at most one terminal status -/
 
-/-- For every kind, behaviour and schedule: the executor sends at most one terminal status update. -/
-theorem C17_one_terminal (k : Kind) (b : Beh) (ops : List Op) :
-    oneTerminal (run k b ops).obs.emits = true := by
-  have := (run_inv k b ops).le1
+/-- For every configuration, kind, behaviour and schedule: the executor sends at most one terminal status update. -/
+theorem C17_one_terminal (c : Cfg) (k : Kind) (b : Beh) (ops : List Op) :
+    oneTerminal (run c k b ops).obs.emits = true := by
+  have := (run_inv c k b ops).le1
   simpa [oneTerminal, Outcome.obs] using this
 
-/-- FULL-STRENGTH (false of the code): nothing at all leaves the executor for the task after its terminal status. -/
-def C17_nothing_after_full : Prop :=
-  ∀ (k : Kind) (b : Beh) (ops : List Op), nothingAfter (run k b ops).obs.emits = true
+/-! ## nothing after the terminal status -/
 
-/-- What IS proved: nothing follows the terminal status, for every schedule that never kills a basic/hook
-    task whose TASK_RUNNING timer is still armed or one of whose processes is still alive. -/
-theorem C17_nothing_after_partial (k : Kind) (b : Beh) (ops : List Op)
-    (ha : never killArmed k b ops = true) (hl : never killLive k b ops = true) :
-    nothingAfter (run k b ops).obs.emits = true := by
+/-- FULL-STRENGTH (false of the code as it is and as it was): nothing at all leaves the executor for the task
+    after its terminal status. -/
+def C17_nothing_after_full (c : Cfg) : Prop :=
+  ∀ (k : Kind) (b : Beh) (ops : List Op), nothingAfter (run c k b ops).obs.emits = true
+
+/-- FULL-STRENGTH, TRUE of the code as it is (`C17_running_first_code`), false of the code before Kill stopped
+    the timer: TASK_RUNNING never follows the terminal status. -/
+def C17_running_first_full (c : Cfg) : Prop :=
+  ∀ (k : Kind) (b : Beh) (ops : List Op), noRunningAfter (run c k b ops).obs.emits = true
+
+/-- Whenever Kill stops the timer: TASK_RUNNING never follows the terminal status — all kinds, behaviours, schedules. -/
+theorem C17_running_first (c : Cfg) (hc : c.killStopsTimer = true) : C17_running_first_full c := by
+  intro k b ops
+  simp only [run, Outcome.obs]
+  split
+  · exact (init_armed c k b).nr
+  · exact (runFrom_armed c hc _ ops (init_armed c k b)).nr
+
+/-- **For the code as it is**, at full strength: TASK_RUNNING never follows the terminal status. -/
+theorem C17_running_first_code : C17_running_first_full codeCfg :=
+  C17_running_first codeCfg rfl
+
+/-- What IS proved about everything that could follow: nothing follows the terminal status, for every schedule
+    that never kills a basic/hook task one of whose processes is still alive, nor (only where Kill does not stop
+    the timer) one whose TASK_RUNNING timer is still armed. -/
+theorem C17_nothing_after_partial (c : Cfg) (k : Kind) (b : Beh) (ops : List Op)
+    (ha : never c (killArmedIn c) k b ops = true) (hl : never c killLive k b ops = true) :
+    nothingAfter (run c k b ops).obs.emits = true := by
   simp only [run, never, Outcome.obs] at *
   split
-  · exact (init_quiet k b).na
+  · exact (init_quiet c k b).na
   · rename_i hh
     simp only [hh] at ha hl
-    exact runFrom_quiet _ ops (init_inv k b) (init_quiet k b) (by simpa using ha) (by simpa using hl)
+    exact runFrom_quiet c _ ops (init_inv c k b) (init_quiet c k b) (by simpa using ha) (by simpa using hl)
 
-/-- Finding: KILL within 200 ms of LAUNCH — TASK_FINISHED is followed by TASK_RUNNING. -/
-theorem C17_finding_kill_before_running_timer : ¬ C17_nothing_after_full := by
-  intro h
-  have := h .basic .ok [.kill]
-  revert this; decide
+/-- **For the code as it is** one hypothesis is left (the open finding `basic_kill_spares_child`): nothing
+    follows the terminal status for every schedule that never kills a basic/hook task with a live process. -/
+theorem C17_nothing_after_code (k : Kind) (b : Beh) (ops : List Op)
+    (hl : never codeCfg killLive k b ops = true) :
+    nothingAfter (run codeCfg k b ops).obs.emits = true :=
+  C17_nothing_after_partial codeCfg k b ops
+    (never_of_false codeCfg _ (by intro s op; simp [killArmedIn, codeCfg]) k b ops) hl
+
+/-- Finding (repaired, true of the code as it was): KILL within 200 ms of LAUNCH — TASK_FINISHED is followed
+    by TASK_RUNNING. -/
+theorem C17_finding_kill_before_running_timer :
+    ¬ C17_running_first_full legacyCfg ∧ ¬ C17_nothing_after_full legacyCfg := by
+  constructor <;> intro h <;> have := h .basic .ok [.kill] <;> revert this <;> decide
 
 /-! ## killed is not failed -/
 
 /-- For every schedule: once a KILL has been carried out, no TASK_FAILED is ever reported for the task. -/
-theorem C17_killed_not_failed (k : Kind) (b : Beh) (ops : List Op) :
-    killedNotFailed ops (run k b ops).obs = true := by
+theorem C17_killed_not_failed (c : Cfg) (k : Kind) (b : Beh) (ops : List Op) :
+    killedNotFailed ops (run c k b ops).obs = true := by
   simp only [killedNotFailed, Bool.or_eq_true, Bool.not_eq_true']
-  cases hk : killOk ops (run k b ops).obs.res
+  cases hk : killOk ops (run c k b ops).obs.res
   · exact Or.inl rfl
   · right
-    have hinv := run_inv k b ops
-    have hkilled : (run k b ops).st.killed = true := by
-      cases hh : (init k b).2.halts
-      · rw [run_of_not_halts k b ops hh] at hk ⊢
-        exact runFrom_killOk _ ops (by simpa [Outcome.obs, killOk] using hk)
-      · rw [run_of_halts k b ops hh] at hk
+    have hinv := run_inv c k b ops
+    have hkilled : (run c k b ops).st.killed = true := by
+      cases hh : (init c k b).2.halts
+      · rw [run_of_not_halts c k b ops hh] at hk ⊢
+        exact runFrom_killOk c _ ops (by simpa [Outcome.obs, killOk] using hk)
+      · rw [run_of_halts c k b ops hh] at hk
         cases ops <;> simp [Outcome.obs, killOk, killOkFrom] at hk
     have := hinv.nof hkilled
     simpa [Outcome.obs] using this
 
 /-! ## no request gets the executor stuck -/
 
-/-- One step is stuck (panic, blocked for ever, or event loop ended) EXACTLY in the four unsafe request
-    states — for every state, reachable or not. -/
-theorem C17_stuck_iff_unsafe (s : St) (op : Op) : (step s op).2.stuck = unsafeReq s op :=
-  step_stuck_iff s op
+/-- One step is stuck (panic, blocked for ever, or event loop ended) EXACTLY in the unsafe request states of the
+    configuration — for every state, reachable or not. For the code as it is that is one state
+    (`C17_unsafe_code`). -/
+theorem C17_stuck_iff_unsafe (c : Cfg) (s : St) (op : Op) : (step c s op).2.stuck = unsafeReq c s op :=
+  step_stuck_iff c s op
 
-/-- FULL-STRENGTH (false of the code): no launch, stop, kill, transition or trigger request crashes or hangs
-    the executor or ends its event loop. -/
-def C17_no_stuck_full : Prop :=
-  ∀ (k : Kind) (b : Beh) (ops : List Op), noStuck (run k b ops).res = true
+/-- In the code as it is the only request that gets a step stuck is a KILL for a controllable task whose rpc
+    client is nil; no launch crashes. -/
+theorem C17_unsafe_code :
+    (∀ s op, unsafeReq codeCfg s op = killNoRpc s op) ∧ (∀ k b, launchCrashes codeCfg k b = false) := by
+  constructor
+  · intro s op; simp [unsafeReq, codeCfg]
+  · intro k b; simp [launchCrashes, codeCfg]
+
+/-- FULL-STRENGTH (false of the code as it is: `C17_finding_kill_unready_ctl_panics`): no launch, stop, kill,
+    transition or trigger request crashes or hangs the executor or ends its event loop. -/
+def C17_no_stuck_full (c : Cfg) : Prop :=
+  ∀ (k : Kind) (b : Beh) (ops : List Op), noStuck (run c k b ops).res = true
+
+/-- FULL-STRENGTH, TRUE of the code as it is (`C17_no_stuck_ready_code`), false of the code before the repairs
+    (five findings): whatever the kind, the behaviour and the schedule, nothing crashes or hangs the executor or
+    ends its event loop unless a KILL reaches a controllable task that is not ready. -/
+def C17_no_stuck_ready_full (c : Cfg) : Prop :=
+  ∀ (k : Kind) (b : Beh) (ops : List Op), never c killNoRpc k b ops = true → noStuck (run c k b ops).res = true
+
+/-- FULL-STRENGTH, TRUE of the code as it is (`C17_no_stuck_basic_code`): no request whatsoever gets the
+    executor stuck over a basic task, a hook task or a task launched without data. -/
+def C17_no_stuck_basic_full (c : Cfg) : Prop :=
+  ∀ (k : Kind) (b : Beh) (ops : List Op), k ≠ .ctl → noStuck (run c k b ops).res = true
 
 /-- Exact characterisation over all schedules: a run is free of crash / hang / loop exit iff the LAUNCH does
-    not crash and no request arrives in one of the four unsafe states. -/
-theorem C17_no_stuck_iff (k : Kind) (b : Beh) (ops : List Op) :
-    noStuck (run k b ops).res = (!launchCrashes k b && never unsafeReq k b ops) := by
+    not crash and no request arrives in one of the unsafe states. -/
+theorem C17_no_stuck_iff (c : Cfg) (k : Kind) (b : Beh) (ops : List Op) :
+    noStuck (run c k b ops).res = (!launchCrashes c k b && never c (unsafeReq c) k b ops) := by
   simp only [run, never]
-  have hh := init_halts k b
-  cases hl : launchCrashes k b
+  have hh := init_halts c k b
+  cases hl : launchCrashes c k b
   · rw [hl] at hh
-    have hok := init_ok k b hh
+    have hok := init_ok c k b hh
     simp only [hh, Bool.false_eq_true, ↓reduceIte, Bool.not_false, Bool.true_and]
-    have := runFrom_noStuck (init k b).1 ops
+    have := runFrom_noStuck c (init c k b).1 ops
     simp only [noStuck, List.all_cons, hok] at this ⊢
     simpa [Res.stuck] using this
   · rw [hl] at hh
-    have := init_stuck k b hh
+    have := init_stuck c k b hh
     simp [hh, noStuck, this]
 
-/-- What IS proved: every request is handled, in every state the schedule reaches, provided the schedule
-    avoids the four unsafe request states and the two launches that crash. -/
-theorem C17_no_stuck_partial (k : Kind) (b : Beh) (ops : List Op)
-    (hl : launchCrashes k b = false) (hn : never unsafeReq k b ops = true) :
-    noStuck (run k b ops).res = true := by
+/-- Every request is handled, in every state the schedule reaches, provided the schedule avoids the unsafe
+    request states of the configuration and the launches that crash in it. -/
+theorem C17_no_stuck_partial (c : Cfg) (k : Kind) (b : Beh) (ops : List Op)
+    (hl : launchCrashes c k b = false) (hn : never c (unsafeReq c) k b ops = true) :
+    noStuck (run c k b ops).res = true := by
   rw [C17_no_stuck_iff, hl, hn]; rfl
 
-/-- Finding: STOP of a RUNNING basic task panics in ensureBasicTaskKilled (ProcessState is nil until Wait returns). -/
-theorem C17_finding_stop_unreaped_basic_panics : ¬ C17_no_stuck_full := by
-  intro h
-  have := h .basic .ok [.tick, .start, .stop]
-  revert this; decide
+/-- **For the code as it is**, at full strength: every launch, stop, kill, transition and trigger request is
+    handled in every reachable state of every schedule — no crash, no hang, the event loop goes on — with the
+    single exception that is still an open finding (KILL of a controllable task that is not ready). -/
+theorem C17_no_stuck_ready_code : C17_no_stuck_ready_full codeCfg := by
+  intro k b ops hn
+  apply C17_no_stuck_partial codeCfg k b ops (C17_unsafe_code.2 k b)
+  have : unsafeReq codeCfg = killNoRpc := by funext s op; exact C17_unsafe_code.1 s op
+  rw [this]; exact hn
 
-/-- Finding: KILL of a controllable task that is not ready (t.rpc == nil) panics in ControllableTask.Kill. -/
-theorem C17_finding_kill_unready_ctl_panics : ¬ C17_no_stuck_full := by
+/-- **For the code as it is**, at full strength and without any hypothesis: basic tasks, hook tasks and tasks
+    launched without data never get the executor stuck. -/
+theorem C17_no_stuck_basic_code : C17_no_stuck_basic_full codeCfg := by
+  intro k b ops hk
+  apply C17_no_stuck_ready_code k b ops
+  simp only [never]
+  split
+  · rfl
+  · exact neverFrom_of_kind codeCfg killNoRpc
+      (by intro s op h; cases hk' : s.kind <;> simp_all [killNoRpc]) _ (by rw [init_kind]; exact hk) ops
+
+/-- **For the code as it is**: no LAUNCH crashes the executor, whatever the task's data and command. -/
+theorem C17_launch_code (k : Kind) (b : Beh) : (init codeCfg k b).2.stuck = false := by
+  have h := init_halts codeCfg k b
+  rw [C17_unsafe_code.2 k b] at h
+  rw [init_ok codeCfg k b h]; rfl
+
+/-- Finding (repaired, true of the code as it was): STOP of a RUNNING basic task panics in
+    ensureBasicTaskKilled (ProcessState is nil until Wait returns). -/
+theorem C17_finding_stop_unreaped_basic_panics :
+    ¬ C17_no_stuck_basic_full legacyCfg ∧ ¬ C17_no_stuck_ready_full legacyCfg := by
+  constructor
+  · intro h; have := h .basic .ok [.tick, .start, .stop] (by decide); revert this; decide
+  · intro h; have := h .basic .ok [.tick, .start, .stop] (by decide); revert this; decide
+
+/-- Finding (repaired, true of the code as it was): a second STOP after the child died of a signal blocks for
+    ever on pendingFinalTaskStateCh. -/
+theorem C17_finding_stop_signalled_twice_hangs :
+    ¬ C17_no_stuck_basic_full legacyCfg ∧ ¬ C17_no_stuck_ready_full legacyCfg := by
+  constructor
+  · intro h; have := h .basic .sig [.tick, .start, .await, .stop, .stop] (by decide); revert this; decide
+  · intro h; have := h .basic .sig [.tick, .start, .await, .stop, .stop] (by decide); revert this; decide
+
+/-- Finding (repaired, true of the code as it was): a KILL for a task that is no longer active makes
+    handleKillEvent return an error, which ends eventLoop. -/
+theorem C17_finding_kill_inactive_ends_loop :
+    ¬ C17_no_stuck_basic_full legacyCfg ∧ ¬ C17_no_stuck_ready_full legacyCfg := by
+  constructor
+  · intro h; have := h .basic .ok [.tick, .kill, .kill] (by decide); revert this; decide
+  · intro h; have := h .ctl .occ [.kill, .kill] (by decide); revert this; decide
+
+/-- Finding (repaired, true of the code as it was): LAUNCH with TaskInfo.Data missing — NewTask returns nil and
+    handleLaunchEvent calls Launch on it. -/
+theorem C17_finding_launch_nil_data_panics :
+    ¬ C17_no_stuck_basic_full legacyCfg ∧ ¬ C17_no_stuck_ready_full legacyCfg := by
+  constructor
+  · intro h; have := h .nodata .ok [] (by decide); revert this; decide
+  · intro h; have := h .nodata .ok [] (by decide); revert this; decide
+
+/-- Finding (repaired, true of the code as it was): LAUNCH of a controllable task whose command cannot be
+    started panics (taskCmd.Process is nil). -/
+theorem C17_finding_ctl_start_failure_panics : ¬ C17_no_stuck_ready_full legacyCfg := by
+  intro h; have := h .ctl .nobin [] (by decide); revert this; decide
+
+/-- Finding (OPEN, true of the code as it is): KILL of a controllable task that is not ready (t.rpc == nil)
+    panics in ControllableTask.Kill. -/
+theorem C17_finding_kill_unready_ctl_panics : ¬ C17_no_stuck_full codeCfg := by
   intro h
   have := h .ctl .noport [.kill]
-  revert this; decide
-
-/-- Finding: a second STOP after the child died of a signal blocks for ever on pendingFinalTaskStateCh. -/
-theorem C17_finding_stop_signalled_twice_hangs : ¬ C17_no_stuck_full := by
-  intro h
-  have := h .basic .sig [.tick, .start, .await, .stop, .stop]
-  revert this; decide
-
-/-- Finding: a KILL for a task that is no longer active makes handleKillEvent return an error, which ends eventLoop. -/
-theorem C17_finding_kill_inactive_ends_loop : ¬ C17_no_stuck_full := by
-  intro h
-  have := h .basic .ok [.tick, .kill, .kill]
-  revert this; decide
-
-/-- Finding: LAUNCH with TaskInfo.Data missing — NewTask returns nil and handleLaunchEvent calls Launch on it. -/
-theorem C17_finding_launch_nil_data_panics : ¬ C17_no_stuck_full := by
-  intro h
-  have := h .nodata .ok []
-  revert this; decide
-
-/-- Finding: LAUNCH of a controllable task whose command cannot be started panics (taskCmd.Process is nil). -/
-theorem C17_finding_ctl_start_failure_panics : ¬ C17_no_stuck_full := by
-  intro h
-  have := h .ctl .nobin []
   revert this; decide
 
 /-! ## no survivors -/
 
 /-- FULL-STRENGTH (false of the code): after a KILL that was carried out no process of the task is left. -/
-def C17_no_survivors_full : Prop :=
-  ∀ (k : Kind) (b : Beh) (ops : List Op), noSurvivors ops (run k b ops).obs = true
+def C17_no_survivors_full (c : Cfg) : Prop :=
+  ∀ (k : Kind) (b : Beh) (ops : List Op), noSurvivors ops (run c k b ops).obs = true
 
 /-- What IS proved: after a carried-out KILL nothing of the task's process groups is alive and the run did
     not stop half-way, for every schedule that never kills a basic/hook task with a live process and never
     kills a controllable task that has forked helpers. -/
-theorem C17_no_survivors_partial (k : Kind) (b : Beh) (ops : List Op)
-    (hl : never killLive k b ops = true) (hh : never killHelpers k b ops = true) :
-    noSurvivors ops (run k b ops).obs = true := by
+theorem C17_no_survivors_partial (c : Cfg) (k : Kind) (b : Beh) (ops : List Op)
+    (hl : never c killLive k b ops = true) (hh : never c killHelpers k b ops = true) :
+    noSurvivors ops (run c k b ops).obs = true := by
   simp only [noSurvivors, Bool.or_eq_true, Bool.not_eq_true']
-  cases hk : killOk ops (run k b ops).obs.res
+  cases hk : killOk ops (run c k b ops).obs.res
   · exact Or.inl rfl
   · right
-    cases hhalt : (init k b).2.halts
-    · rw [run_of_not_halts k b ops hhalt] at hk ⊢
+    cases hhalt : (init c k b).2.halts
+    · rw [run_of_not_halts c k b ops hhalt] at hk ⊢
       simp only [never, hhalt, Bool.false_eq_true, ↓reduceIte] at hl hh
-      have hkilled := runFrom_killOk _ ops (by simpa [Outcome.obs, killOk] using hk)
-      have := runFrom_survivors _ ops (init_inv k b) (init_surv k b) hl hh hkilled
+      have hkilled := runFrom_killOk c _ ops (by simpa [Outcome.obs, killOk] using hk)
+      have := runFrom_survivors c _ ops (init_inv c k b) (init_surv c k b) hl hh hkilled
       simp [Outcome.obs, this.1, this.2]
-    · rw [run_of_halts k b ops hhalt] at hk
+    · rw [run_of_halts c k b ops hhalt] at hk
       cases ops <;> simp [Outcome.obs, killOk, killOkFrom] at hk
 
-/-- Finding: KILL of a basic task never signals its child — the process group outlives the TASK_FINISHED. -/
-theorem C17_finding_basic_kill_spares_child : ¬ C17_no_survivors_full := by
-  intro h
-  have := h .basic .ok [.tick, .start, .kill]
-  revert this; decide
+/-- Finding (OPEN, true of the code as it is): KILL of a basic task never signals its child — the process group
+    outlives the TASK_FINISHED, and when the child ends later its BASIC_TASK_TERMINATED follows the terminal
+    status. -/
+theorem C17_finding_basic_kill_spares_child :
+    ¬ C17_no_survivors_full codeCfg ∧ ¬ C17_nothing_after_full codeCfg := by
+  constructor
+  · intro h; have := h .basic .ok [.tick, .start, .kill]; revert this; decide
+  · intro h; have := h .basic .ok [.tick, .start, .kill, .await]; revert this; decide
 
-/-- Finding: KILL of a ready controllable task signals the device pid only — forked helpers survive. -/
-theorem C17_finding_ctl_kill_spares_helpers : ¬ C17_no_survivors_full := by
+/-- Finding (OPEN, true of the code as it is): KILL of a ready controllable task signals the device pid only —
+    forked helpers survive. -/
+theorem C17_finding_ctl_kill_spares_helpers : ¬ C17_no_survivors_full codeCfg := by
   intro h
   have := h .ctl .occfork [.kill]
   revert this; decide
 
 /-! ## the whole property -/
 
-/-- Every conjunct of the property at once, for every schedule that stays clear of the recorded classes. -/
-theorem C17_spec_partial (k : Kind) (b : Beh) (ops : List Op)
-    (h0 : launchCrashes k b = false) (h1 : never unsafeReq k b ops = true)
-    (h2 : never killArmed k b ops = true) (h3 : never killLive k b ops = true)
-    (h4 : never killHelpers k b ops = true) :
-    Spec ops (run k b ops).obs = true := by
-  have a := C17_one_terminal k b ops
-  have b' := C17_nothing_after_partial k b ops h2 h3
-  have c := C17_killed_not_failed k b ops
-  have d := C17_no_stuck_partial k b ops h0 h1
-  have e := C17_no_survivors_partial k b ops h3 h4
-  simp only [Spec, a, b', c, e, Bool.and_true, Bool.true_and]
+/-- Every conjunct of the property at once, for every schedule that stays clear of the classes of the
+    configuration. -/
+theorem C17_spec_partial (c : Cfg) (k : Kind) (b : Beh) (ops : List Op)
+    (h0 : launchCrashes c k b = false) (h1 : never c (unsafeReq c) k b ops = true)
+    (h2 : never c (killArmedIn c) k b ops = true) (h3 : never c killLive k b ops = true)
+    (h4 : never c killHelpers k b ops = true) :
+    Spec ops (run c k b ops).obs = true := by
+  have a := C17_one_terminal c k b ops
+  have b' := C17_nothing_after_partial c k b ops h2 h3
+  have c' := C17_killed_not_failed c k b ops
+  have d := C17_no_stuck_partial c k b ops h0 h1
+  have e := C17_no_survivors_partial c k b ops h3 h4
+  simp only [Spec, a, b', c', e, Bool.and_true, Bool.true_and]
   simpa [Outcome.obs] using d
 
-/-- Non-vacuity: realistic schedules meet all hypotheses — a basic task that is started, ends, is stopped,
-    restarted, ends and is killed; a device walked STANDBY→CONFIGURED→RUNNING and killed (needs SIGTERM);
-    a hook triggered twice with the first run over before the second. -/
+/-- **The whole property for the code as it is**: all five conjuncts for every kind, behaviour and schedule
+    that stays clear of the three request states of the findings that are still open — KILL of a controllable
+    task that is not ready, KILL of a basic/hook task with a live process, KILL of a controllable task with
+    forked helpers. (Before the repairs five more states and two launches had to be excluded.) -/
+theorem C17_spec_code (k : Kind) (b : Beh) (ops : List Op)
+    (h1 : never codeCfg killNoRpc k b ops = true) (h3 : never codeCfg killLive k b ops = true)
+    (h4 : never codeCfg killHelpers k b ops = true) :
+    Spec ops (run codeCfg k b ops).obs = true := by
+  have hu : unsafeReq codeCfg = killNoRpc := by funext s op; exact C17_unsafe_code.1 s op
+  exact C17_spec_partial codeCfg k b ops (C17_unsafe_code.2 k b) (by rw [hu]; exact h1)
+    (never_of_false codeCfg _ (by intro s op; simp [killArmedIn, codeCfg]) k b ops) h3 h4
+
+/-- Non-vacuity: realistic schedules meet the hypotheses of `C17_spec_code` — among them the ones that used to
+    be excluded: STOP of a running basic task, two STOPs after a child that died of a signal, KILL before the
+    TASK_RUNNING timer, a repeated KILL, a launch without data, a command that cannot be started. -/
 example :
     let ok (k : Kind) (b : Beh) (ops : List Op) : Bool :=
-      !launchCrashes k b && never unsafeReq k b ops && never killArmed k b ops && never killLive k b ops &&
-        never killHelpers k b ops
+      never codeCfg killNoRpc k b ops && never codeCfg killLive k b ops && never codeCfg killHelpers k b ops
     ok .basic .ok [.tick, .start, .await, .stop, .start, .await, .kill] = true ∧
-    ok .ctl .occstay [.conf, .start, .kill] = true ∧
+    ok .basic .ok [.start, .stop, .kill, .kill, .tick] = true ∧
+    ok .basic .sig [.tick, .start, .await, .stop, .stop, .kill] = true ∧
+    ok .nodata .ok [.kill, .start] = true ∧
+    ok .ctl .nobin [.kill, .conf] = true ∧
+    ok .ctl .occstay [.conf, .start, .kill, .kill] = true ∧
     ok .ctl .occign [.kill] = true ∧
     ok .hook .fail [.tick, .trigger, .await, .trigger, .await, .kill] = true := by decide
+
+/-- The same schedules under the code as it was: each of the formerly excluded ones breaks the property. -/
+example :
+    Spec [.start, .stop, .kill, .kill, .tick] (run legacyCfg .basic .ok [.start, .stop, .kill, .kill, .tick]).obs = false ∧
+    Spec [.start, .stop, .kill, .kill, .tick] (run codeCfg .basic .ok [.start, .stop, .kill, .kill, .tick]).obs = true := by
+  decide
